@@ -73,8 +73,11 @@ def oracle(rec, strict=True):
         # call whose work is done finds them alive; for such pools only the state after leaving the pool is judged
         if strict and not sc['pool'].get('keep_alive'):
             ar = out.get('at_raise', {})
-            if live(ar) or pool_threads(ar):
-                return (f"{where}: KeyboardInterrupt reached the caller while {len(live(ar))} worker process(es) and helper threads "
+            # worker processes = the pids that logged a worker instance start (the tqdm / insights manager processes are not workers)
+            wpids = {e['pid'] for e in runner.all_events(rec, 'instance_start')}
+            alive_workers = [c for c in live(ar) if c['pid'] in wpids]
+            if alive_workers or pool_threads(ar):
+                return (f"{where}: KeyboardInterrupt reached the caller while {len(alive_workers)} worker process(es) and helper threads "
                         f"{pool_threads(ar)} of the pool were still alive"), 'alive_at_raise'
     aft = res.get('after_exit', {})
     if live(aft) or pool_threads(aft):
